@@ -1,2 +1,4 @@
 pub mod c01;
 pub mod c04;
+pub mod c06;
+pub mod c07;
